@@ -260,14 +260,23 @@ def _entry_calls(slot, bad, tags, fields, variant):
 
         return mk
 
+    def kw_static_with_valid_other():
+        # the invalid value sits next to VALID static arguments of the other kinds in the same call
+        kw = kw_static()
+        extra = {"time": from_us(BASE_US + 5), "measurement": "m9", "tags": {"ok": "1"}, "fields": {"ok": 1}}
+        for k_, v_ in extra.items():
+            kw.setdefault(k_, v_)
+        return kw
+
     styles = [("static", kw_static), ("callable", kw_callable)]
     if tags is not None or fields is not None:
         styles.append(("callable", kw_callable_merged))
         styles.append(("callable", kw_callable_stateful))
         styles.append(("callable", kw_callable_inplace("arg")))
         styles.append(("callable", kw_callable_inplace("none")))
+    styles.append(("static", kw_static_with_valid_other))
     for si, (style, mk) in enumerate(styles):
-        sv = v + ("+old" if si == 2 else "+stateful" if si == 3 else "+inplace" if si == 4 else "+inplace-none" if si == 5 else "")
+        sv = v + ("+valid-others" if mk is kw_static_with_valid_other else "+old" if si == 2 else "+stateful" if si == 3 else "+inplace" if si == 4 else "+inplace-none" if si == 5 else "")
         yield f"update({style}){sv}", lambda db, mk=mk: db.update(Q, **mk())
         yield f"update_all({style}){sv}", lambda db, mk=mk: db.update_all(**mk())
         yield f"handle.update({style}){sv}", lambda db, mk=mk: db.measurement("m0").update(Q, **mk())
@@ -344,7 +353,7 @@ def run(res, tier, seed, shard, nshards):
                     call(db)
                 except Exception as e:
                     exc = e
-            res.count(f"entry.{label.split('#')[0].split('+old')[0].split('+stateful')[0].split('+inplace')[0]}")
+            res.count(f"entry.{label.split('#')[0].split('+old')[0].split('+stateful')[0].split('+inplace')[0].split('+valid-others')[0]}")
             if "+inplace" in label:
                 res.count("inplace_editing_callables")
             res.count("raised" if exc is not None else "returned")
